@@ -1,0 +1,73 @@
+//go:build verif
+
+package kgo
+
+import (
+	"context"
+	"fmt"
+	"sync"
+)
+
+// This file exposes a few internals to the verification harness. It is built
+// only with the verif tag and changes nothing otherwise.
+
+// VerifSetProduceSequence fast-forwards the next produce sequence number of a
+// partition whose buffer exists and that has not sent a batch yet.
+func (cl *Client) VerifSetProduceSequence(topic string, partition, seq int32) error {
+	parts, ok := cl.producer.topics.load()[topic]
+	if !ok {
+		return fmt.Errorf("topic %s not loaded", topic)
+	}
+	v := parts.load()
+	if int(partition) >= len(v.partitions) {
+		return fmt.Errorf("partition %d not loaded", partition)
+	}
+	rb := v.partitions[partition].records
+	rb.mu.Lock()
+	defer rb.mu.Unlock()
+	rb.seq = seq
+	rb.batch0Seq = seq
+	rb.needSeqReset = false
+	return nil
+}
+
+// VerifRing wraps ring[int].
+type VerifRing struct{ r ring[int] }
+
+func (v *VerifRing) InitMaxLen(n int)                  { v.r.initMaxLen(n) }
+func (v *VerifRing) Push(e int) (first, dead bool)      { return v.r.push(e) }
+func (v *VerifRing) PushForce(e int) (first, dead bool) { return v.r.pushForce(e) }
+func (v *VerifRing) DropPeek() (int, bool, bool)        { return v.r.dropPeek() }
+func (v *VerifRing) Die()                               { v.r.die() }
+func (v *VerifRing) Empty() bool                        { return v.r.empty() }
+
+// VerifWorkLoop wraps workLoop.
+type VerifWorkLoop struct{ l workLoop }
+
+func (v *VerifWorkLoop) MaybeBegin() bool            { return v.l.maybeBegin() }
+func (v *VerifWorkLoop) MaybeFinish(again bool) bool { return v.l.maybeFinish(again) }
+func (v *VerifWorkLoop) HardFinish()                 { v.l.hardFinish() }
+
+// VerifGate is the BlockRebalanceOnPoll gate of a bare consumer.
+type VerifGate struct{ cl *Client }
+
+func NewVerifGate() *VerifGate {
+	cl := &Client{ctx: context.Background()}
+	cl.cfg.blockRebalanceOnPoll = true
+	c := &cl.consumer
+	c.cl = cl
+	c.pollWaitC = sync.NewCond(&c.pollWaitMu)
+	return &VerifGate{cl}
+}
+
+func (g *VerifGate) WaitAndAddPoller() { g.cl.consumer.waitAndAddPoller() }
+func (g *VerifGate) UnaddPoller()      { g.cl.consumer.unaddPoller() }
+func (g *VerifGate) AllowRebalance()   { g.cl.consumer.allowRebalance() }
+func (g *VerifGate) WaitAndAddRebalance(silent bool) {
+	if silent {
+		g.cl.consumer.waitAndAddRebalanceSilent()
+	} else {
+		g.cl.consumer.waitAndAddRebalance()
+	}
+}
+func (g *VerifGate) UnaddRebalance() { g.cl.consumer.unaddRebalance() }
